@@ -15,7 +15,8 @@ LEVEL = "fault_enumeration"
 RULE = (
     "Hypothesis + enumeration: statement sequences (2..8) with 1..3 designated poison positions x rejection cause "
     "{unsupported Python object, typed literal while max_datatypes=0, tuple too short, non-iterable, (rdflib) Literal as "
-    "graph name, rdflib Variable as term, unsupported graph id of GraphStream.graph} x slot {s, p, o, g, nested s/p/o of a "
+    "graph name, rdflib Variable as term, unsupported graph id of GraphStream.graph, a statement with more namespaces than the "
+    "prefix table has slots} x slot {s, p, o, g, nested s/p/o of a "
     "quoted triple} x TripleStream / QuadStream / GraphStream x generic / rdflib term encoder, driven statement by "
     "statement in a catch-and-continue loop (frames written as they appear, final flush of the flow). accepted := the "
     "statements whose call returned. Oracle: the reference decoder R (unclosed graph at end allowed; a graph start while a "
@@ -29,8 +30,10 @@ ASSUMPTIONS = [
     "the caller catches Exception and carries on with the same stream object, flushing stream.flow at the end",
 ]
 
-CAUSES_GENERIC = ["unsupported", "typed_literal_disabled", "short_tuple", "non_iterable", "nested_unsupported", "bad_graph_id"]
-CAUSES_RDFLIB = ["unsupported", "typed_literal_disabled", "short_tuple", "non_iterable", "literal_graph", "variable", "bad_graph_id"]
+CAUSES_GENERIC = ["unsupported", "typed_literal_disabled", "short_tuple", "non_iterable", "nested_unsupported", "bad_graph_id",
+                  "table_overflow"]
+CAUSES_RDFLIB = ["unsupported", "typed_literal_disabled", "short_tuple", "non_iterable", "literal_graph", "variable", "bad_graph_id",
+                 "table_overflow"]
 
 
 @st.composite
@@ -52,7 +55,11 @@ def poison_case(draw):
             cause = "unsupported"
         poisons.append({"pos": draw(st.integers(0, len(stmts) - 1)), "cause": cause, "slot": slot,
                         "nested_slot": draw(st.sampled_from("spo"))})
-    if any(p["cause"] == "typed_literal_disabled" for p in poisons):
+    if any(p["cause"] == "table_overflow" for p in poisons):
+        # a prefix table that holds the ordinary statements (their IRIs all share one namespace after rewriting, see
+        # run_case) but not the poisoned one, which uses a different namespace in every slot
+        preset = [16, 1, 0 if any(p["cause"] == "typed_literal_disabled" for p in poisons) else 8]
+    elif any(p["cause"] == "typed_literal_disabled" for p in poisons):
         preset = [draw(st.sampled_from([8, 16, 4000])), draw(st.sampled_from([0, 4, 150])), 0]
     else:
         preset = draw(gen.preset_for(stmts))
@@ -93,6 +100,10 @@ def sabotage(objs, poison, integration, neutral):
             objs[min(j, 2) if j != 3 else 2] = rdflib.Literal("5", datatype=rdflib.XSD.integer)
             if j not in (2,):
                 objs[2] = rdflib.Literal("5", datatype=rdflib.XSD.integer)
+    elif cause == "table_overflow":
+        conv = T.to_generic if integration == "generic" else T.to_rdflib
+        for k in range(min(3, len(objs))):
+            objs[k] = conv(["iri", "http://overflow%d.example/x" % k])
     elif cause == "short_tuple":
         return tuple(objs[:-1]) if j % 2 == 0 else tuple(objs[:1])
     elif cause == "non_iterable":
@@ -121,6 +132,15 @@ def run_case(case):
     stmts = [list(s) for s in case["statements"]]
     if any(p["cause"] == "typed_literal_disabled" for p in case["poisons"]):
         stmts = [[strip_datatypes(t) for t in s] for s in stmts]
+    if any(p["cause"] == "table_overflow" for p in case["poisons"]):
+        # max_prefixes = 1: every ordinary IRI is moved into one namespace so that only the poisoned statement overflows
+        def one_ns(t):
+            if t[0] == "iri":
+                return ["iri", "http://one.example/" + t[1].replace("/", "_").replace("#", "_")]
+            if t[0] == "triple":
+                return ["triple", *[one_ns(x) for x in t[1:]]]
+            return t
+        stmts = [[one_ns(t) for t in s] for s in stmts]
     poison_at = {}
     for p in case["poisons"]:
         poison_at.setdefault(p["pos"], p)
@@ -145,6 +165,11 @@ def run_case(case):
 
     i = 0
     n = len(stmts)
+    for k, pk in list(poison_at.items()):
+        if pk["cause"] == "table_overflow":
+            # not a sabotaged call but a well-formed statement that may not fit the tables: accepted or refused
+            stmts[k] = [["iri", "http://overflow%d.example/x" % j] if j < 3 else t for j, t in enumerate(stmts[k])]
+            del poison_at[k]
     while i < n:
         s = stmts[i]
         objs = tuple(conv(t) for t in s)
